@@ -165,7 +165,6 @@ func runHW(c *hx.Ctx, h hwCase) bool {
 			}
 		}
 	}()
-	adopted := len(recsOf(name))
 	var got []byte
 	buf := make([]byte, 4096)
 	for len(got) < total {
@@ -202,6 +201,11 @@ func runHW(c *hx.Ctx, h hwCase) bool {
 	<-hdone
 	srvConn.Close()
 
+	// the adopting listener's connection record is written by the new connection's filter chain (its own goroutine)
+	adopted := 0
+	for dl := time.Now().Add(2 * time.Second); adopted == 0 && time.Now().Before(dl); time.Sleep(2 * time.Millisecond) {
+		adopted = len(recsOf(name))
+	}
 	idx, clean := hwParse(got, want)
 	inorder := 1
 	seen := map[int]bool{}
